@@ -167,6 +167,85 @@ theorem C09_store_block_match (U : UnicodeOps) (s s' : Store.Store) (a b : Str) 
       simp [he, this]
 
 
+/-- **C09, matching of frame codes in the composed model.**  After `cif_container_create_frame` succeeded under spelling `a` in the
+    container `p` (any store state whose frame keys are the normal forms of their spellings — preserved, first conjunct):
+    `cif_container_get_frame` under a valid `b` finds a frame of `p` iff `cifNormalize U b = cifNormalize U a` or it found one before —
+    frames of OTHER containers never match —, and, when nothing older matched, it is the new frame under its spelling `a`;
+    `cif_container_create_frame` under a valid `b` is refused as CIF_DUP_FRAMECODE iff the normal forms coincide or it would have been
+    refused before (store outside a transaction; id-sequence facts of C04's invariant as explicit hypotheses). -/
+theorem C09_store_frame_match (U : UnicodeOps) (s s' : Store.Store) (p : CH) (a b : Str) (h : CH)
+    (hn : FramesNormOK (cifNormalize U) s.db) (hvb : isValidName false b = true)
+    (hc : createFrame s p (some (apiName U false a)) = (s', .ok h)) :
+    FramesNormOK (cifNormalize U) s'.db ∧
+    (((getFrame s' p (some (apiName U false b))).2.toOption.isSome = true) ↔
+      (cifNormalize U b = cifNormalize U a ∨ (getFrame s p (some (apiName U false b))).2.toOption.isSome = true)) ∧
+    (cifNormalize U b = cifNormalize U a → (getFrame s p (some (apiName U false b))).2.toOption.isSome = false →
+      (getFrame s' p (some (apiName U false b))).2 = .ok { id := h.id, code := a, isBlock := false }) ∧
+    (s.autocommit = true → s'.autocommit = true →
+      (∀ f ∈ s.db.frames, f.cid ≠ s.db.nextId) → s.db.hasContainer p.id = true → p.id ≠ s.db.nextId →
+      (∀ f ∈ s'.db.frames, f.cid ≠ s'.db.nextId) → s'.db.hasContainer p.id = true → p.id ≠ s'.db.nextId →
+      ((createFrame s' p (some (apiName U false b))).2 = .error Gen.ErrCodes.CIF_DUP_FRAMECODE ↔
+        (cifNormalize U b = cifNormalize U a ∨ (createFrame s p (some (apiName U false b))).2 = .error Gen.ErrCodes.CIF_DUP_FRAMECODE))) := by
+  obtain ⟨hrow, _, _, _⟩ := createFrame_row s s' p _ h hc
+  simp only [apiName] at hrow
+  refine ⟨?_, ?_, ?_, ?_⟩
+  · intro r hr
+    rw [hrow] at hr
+    rcases List.mem_append.mp hr with h1 | h1
+    · exact hn r h1
+    · simp at h1; subst h1; rfl
+  · simp only [getFrame, apiName, hvb, Bool.not_true, Bool.false_eq_true, if_false, hrow, List.find?_append]
+    cases hf : s.db.frames.find? (fun r => r.parent == p.id && r.name == cifNormalize U b) with
+    | some r => simp [Except.toOption]
+    | none =>
+      by_cases he : cifNormalize U a = cifNormalize U b
+      · simp [he, Except.toOption]
+      · have : ¬ cifNormalize U b = cifNormalize U a := fun e => he e.symm
+        simp [he, this, Except.toOption]
+  · intro he hold
+    simp only [getFrame, apiName, hvb, Bool.not_true, Bool.false_eq_true, if_false, hrow, List.find?_append] at hold ⊢
+    cases hf : s.db.frames.find? (fun r => r.parent == p.id && r.name == cifNormalize U b) with
+    | some r => simp [hf, Except.toOption] at hold
+    | none => simp [he]
+  · intro hac hac' h1 h2 h3 h1' h2' h3'
+    rw [createFrame_dup_iff s' p _ hac' (by simp [apiName, hvb]) h1' h2' h3',
+      createFrame_dup_iff s p _ hac (by simp [apiName, hvb]) h1 h2 h3]
+    simp only [apiName, hrow, List.any_append]
+    by_cases he : cifNormalize U a = cifNormalize U b
+    · simp [he]
+    · have : ¬ cifNormalize U b = cifNormalize U a := fun e => he e.symm
+      simp [he, this]
+
+/-- **C09, matching of data names in the composed model.**  After `cif_container_create_loop` succeeded in container `p` with the names
+    `xs` (spellings; keys built by `apiName`): an item of container `c` is present under the key of spelling `b` — `loop_item` has a row
+    (c, `cifNormalize U b`): what makes `cif_container_get_value` / `get_item_loop` find it and what makes a second definition fail with
+    CIF_DUP_ITEMNAME (the `hasItem` test of ADD_LOOP_ITEM_SQL's primary key) — iff `c = p` and `b` has the normal form of one of the names
+    just defined, or it was present before; and the invariant `ItemsNormOK (cifNormalize U)` is preserved. -/
+theorem C09_store_item_match (U : UnicodeOps) (s s' : Store.Store) (p : CH) (cat : Option Str) (xs : List Str) (l : LH) (b : Str) (c : Nat)
+    (hn : ItemsNormOK (cifNormalize U) s.db)
+    (hc : createLoop s p cat (xs.map (apiName U true)) = (s', .ok l)) :
+    ItemsNormOK (cifNormalize U) s'.db ∧
+    (s'.db.hasItem c (cifNormalize U b) = true ↔
+      ((c = p.id ∧ ∃ a ∈ xs, cifNormalize U a = cifNormalize U b) ∨ s.db.hasItem c (cifNormalize U b) = true)) := by
+  obtain ⟨hrows, _, _, _⟩ := createLoop_rows s s' p cat _ l hc
+  constructor
+  · intro i hi
+    rw [hrows] at hi
+    rcases List.mem_append.mp hi with h1 | h1
+    · exact hn i h1
+    · simp only [List.map_map, List.mem_map, Function.comp] at h1
+      obtain ⟨x, _, rfl⟩ := h1
+      rfl
+  · rw [createLoop_hasItem s s' p cat _ l hc c (cifNormalize U b)]
+    constructor
+    · rintro (⟨h1, n, hn', h2⟩ | h)
+      · obtain ⟨x, hx, rfl⟩ := List.mem_map.mp hn'
+        exact Or.inl ⟨h1, x, hx, h2⟩
+      · exact Or.inr h
+    · rintro (⟨h1, x, hx, h2⟩ | h)
+      · exact Or.inl ⟨h1, apiName U true x, List.mem_map.mpr ⟨x, hx, rfl⟩, h2⟩
+      · exact Or.inr h
+
 -- non-vacuity ------------------------------------------------------------------------------------------------------------
 /-- create `Ab` in the empty store, then look up `ab` and `AB` (toy folding: `A` ↦ `a`): both find the block created as `Ab` -/
 example : ∃ s' h, createBlock {} (some (apiName toyU false [65, 98])) = (s', .ok h) ∧
@@ -176,5 +255,21 @@ example : ∃ s' h, createBlock {} (some (apiName toyU false [65, 98])) = (s', .
 example : BlocksNormOK (cifNormalize toyU) ({} : Store.Store).db := fun _ h => nomatch h
 example : validName false [65, 98] := (C09_validity false _ (by decide)).1 (by decide)
 example : entryName (IcuOps.of toyU) false [65, 98, 0] = apiName toyU false [65, 98] := by rfl
+
+/-- frames and items: in the store holding one block, create the frame `Ar` / the item `_Ab`; the hypotheses of
+    `C09_store_frame_match` / `C09_store_item_match` hold, and the variant spellings `ar` / `_ab` hit them -/
+def oneBlock : Store.Store := (createBlock {} (some (apiName toyU false [98]))).1
+def theBlock : CH := { id := 1, code := [98], isBlock := true }
+example : ∃ s' h, createFrame oneBlock theBlock (some (apiName toyU false [65, 114])) = (s', .ok h) ∧
+    (getFrame s' theBlock (some (apiName toyU false [97, 114]))).2 = .ok { id := h.id, code := [65, 114], isBlock := false } :=
+  ⟨_, _, rfl, rfl⟩
+example : FramesNormOK (cifNormalize toyU) oneBlock.db ∧ ItemsNormOK (cifNormalize toyU) oneBlock.db := by
+  have e1 : oneBlock.db.frames = [] := rfl
+  have e2 : oneBlock.db.items = [] := rfl
+  constructor
+  · intro f h; rw [e1] at h; cases h
+  · intro i h; rw [e2] at h; cases h
+example : ∃ s' l, createLoop oneBlock theBlock none ([[95, 65, 98]].map (apiName toyU true)) = (s', .ok l) ∧
+    s'.db.hasItem 1 (cifNormalize toyU [95, 97, 98]) = true := ⟨_, _, rfl, rfl⟩
 
 end CifModel
